@@ -65,7 +65,7 @@ def cases(tier, seed):
                             "mergebuf": rng.choice([1, 2, 3, 5, 10 ** 6]), "k": rng.choice([2, 3, 5]),
                             "chunk": rng.choice([1, 2, 3, 10 ** 6]), "seed": h,
                             "uchunks": rsplit(total, nuc, rng), "max_merge": rng.choice([1, 2, 200]) if nuc >= 4 else 200,
-                            "zoom": zoom, "expect": 8 + len(set(zoom))}
+                            "zoom": zoom, "expect": 8 + len(set(zoom)), "zoom_nested": F_h("zoomnested", 2) == 1}
     # (3b) producers on EMPTY inputs with a second value column
     for tname, bsz in (("one_fixed", 2), ("fixed_short", 2), ("two_fixed", 2), ("variable", 0), ("onebin_chroms", 0)):
         for mode in ("symm", "square"):
